@@ -4,8 +4,8 @@
 //   pssieve    real Erat + real SievingPrimes driven by a copy of the loop of CountPrintPrimes::sieve (the translator checks
 //              the text of that loop); the raw sieve_ array of every segment is dumped / hashed
 //   psseg      real Erat, explicit sieving numbers
-//   pscount    real PrimeSieve::countPrimes (CountPrintPrimes::sieve itself)
-//   psgen      real PrimeGenerator::fillNextPrimes until it reports the end;  psgenprev: fillPrevPrimes
+//   pscorecount    real PrimeSieve::countPrimes (CountPrintPrimes::sieve itself)
+//   pscoregen      real PrimeGenerator::fillNextPrimes until it reports the end;  psgenprev: fillPrevPrimes
 //   pswheeladd real Wheel<..>::addSievingPrime through a recording subclass;  pspresieve: real PreSieve::preSieve
 //
 // Private / protected members are reached through `#define private public` / `#define protected public` in THIS translation
@@ -212,7 +212,7 @@ PCV_OP(psseg)
   return s + " total=" + std::to_string(total);
 }
 
-PCV_OP(pscount)
+PCV_OP(pscorecount)
 {
   if (a.size() != 4) return "ERR:proto";
   uint128_t start = parse_u128(a[0]), stop = parse_u128(a[1]), kb = parse_u128(a[2]), l1 = parse_u128(a[3]);
@@ -256,7 +256,7 @@ static std::string psgen_impl(const Args& a, bool prev)
   return primes_out(hex, out, err);
 }
 
-PCV_OP(psgen) { return psgen_impl(a, false); }
+PCV_OP(pscoregen) { return psgen_impl(a, false); }
 PCV_OP(psgenprev) { return psgen_impl(a, true); }
 
 PCV_OP(pswheeladd)
